@@ -232,7 +232,7 @@ def task(args):
         good_t = expr_text(good_v)
         bads = list(BAD.get(fmt, []))
         with core.TempProject("c14") as tp:
-            scenario = r.choice(["fresh-good", "good-bad-good", "bad-first", "constraint", "zero-out", "two-outs", "good-good"])
+            scenario = r.choice(["fresh-good", "good-bad-good", "bad-first", "constraint", "zero-out", "two-outs", "good-good", "imported-file-with-out"])
             if fmt in EMPTY_OUT and r.random() < 0.35:
                 scenario = r.choice(["empty-fresh", "good-then-empty"])
             if r.random() < 0.06:
@@ -308,6 +308,37 @@ def task(args):
                     res.violation(["file-without-out-changes-directory-or-fails"], witness, {"exit": ev["exit"], "new": sorted(set(after) - set(before))})
                 else:
                     res.count("zero-out-ok")
+            elif scenario == "imported-file-with-out":
+                # the file with the out statement is also imported by another file of the same invocation, in both orders:
+                # its artifact is the same single artifact, and the importer's own out works too
+                d = os.path.dirname(pl.src)
+                libname = os.path.join(d, "c14outlib.ucg")
+                mainname = os.path.join(d, "c14main.ucg")
+                tp.write(libname, "let v = %s;\nlet n = 1;\nout %s v;\n" % (good_t, fmt))
+                tp.write(mainname, "let l = import \"c14outlib.ucg\";\nout json {n = l.n};\n")
+                exp, _experr = expected_bytes(probe, fmt, good_t)
+                for order in ((libname, mainname), (mainname, libname), (libname, mainname, libname)):
+                    for f in os.listdir(tp.path(d) if d else tp.root):
+                        if f.startswith("c14") and not f.endswith(".ucg"):
+                            os.remove(os.path.join(tp.path(d) if d else tp.root, f))
+                    cwd = os.path.normpath(os.path.join(tp.root, pl.cwd))
+                    os.makedirs(cwd, exist_ok=True)
+                    args = [tp.path(x) if pl.absolute else os.path.relpath(tp.path(x), cwd) for x in order]
+                    ev = core.run_cli(["build"] + args, cwd)
+                    w3 = dict(witness, order=[os.path.basename(x) for x in order])
+                    art = tp.path(os.path.join(d, "c14outlib." + ext))
+                    mart = tp.path(os.path.join(d, "c14main.json"))
+                    if ev["exit"] != 0:
+                        res.violation(["imported-file-with-out", "build-fails", "importer-" + ("first" if order[0] == mainname else "later")], w3,
+                                      {"output": (ev["stdout"] + ev["stderr"])[-300:]})
+                        break
+                    if exp is not None and (not os.path.exists(art) or open(art, "rb").read() != exp):
+                        res.violation(["imported-file-with-out", "artifact-differs-from-convert"], w3, {"exists": os.path.exists(art)})
+                        break
+                    if not os.path.exists(mart):
+                        res.violation(["imported-file-with-out", "importer-artifact-missing"], w3, {})
+                        break
+                    res.count("imported-file-with-out-ok")
             elif scenario == "two-outs":
                 other = r.choice([f for f in fmts if f in GOOD])
                 ov = GOOD[other](r)
